@@ -45,7 +45,7 @@ Lemma step_b_invalid cfg s b t x : step_b cfg s b = (t, false, x) -> t = s /\ x 
 Proof.
   destruct b as [c|c m o|c|fault|dt fault]; unfold step_b.
   - destruct (has_conn c s); [intros K; inversion K; auto|].
-    destruct (run_m (on_open c) _) as [u y]. intros K; inversion K.
+    destruct (run_m (on_open cfg c) _) as [u y]. intros K; inversion K.
   - destruct (has_conn c s); [|intros K; inversion K; auto].
     destruct (on_message cfg c m o s); intros K; inversion K.
   - destruct (has_conn c s); intros K; inversion K; auto.
@@ -66,6 +66,7 @@ Section Two.
 Variables cfg1 cfg2 : config.
 Hypothesis Hexp : exp cfg1 = exp cfg2.
 Hypothesis Hper : period cfg1 = period cfg2.
+Hypothesis Hwel : welcome cfg1 = welcome cfg2.
 
 Notation simT := (sim cfg1 cfg2 True).
 
@@ -115,7 +116,7 @@ Proof.
   { destruct (si_clean _ H1) as [E _]. rewrite <- E. exact Hdbw. }
   destruct e as [b|k b|].
   - (* plain *)
-    pose proof (step_sim cfg1 cfg2 True Hexp (fun _ => Hper) s1 s2 b Hs Hdbw
+    pose proof (step_sim cfg1 cfg2 True Hexp (fun _ => Hper) Hwel s1 s2 b Hs Hdbw
                          (simT_same_firing s1 s2 (EB b) Hs)) as K.
     assert (B1 : o_boot_log (snd (step cfg1 s1 (EB b))) = []).
     { unfold step. cbv zeta. destruct (step_b cfg1 (set_log s1 []) b) as [[? ?] ?]. reflexivity. }
@@ -130,7 +131,7 @@ Proof.
     unfold step. cbv zeta.
     pose proof (simT_set_log_nil _ _ Hs) as Hs0.
     set (a1 := set_log s1 []) in *. set (a2 := set_log s2 []) in *.
-    pose proof (step_b_sim cfg1 cfg2 True Hexp (fun _ => Hper) a1 a2 b Hs0 Hdbw
+    pose proof (step_b_sim cfg1 cfg2 True Hexp (fun _ => Hper) Hwel a1 a2 b Hs0 Hdbw
                            (simT_same_firing a1 a2 (EB b) Hs0)) as K.
     destruct (step_b cfg1 a1 b) as [[t1 v1] x1] eqn:E1.
     destruct (step_b cfg2 a2 b) as [[t2 v2] x2] eqn:E2.
@@ -239,7 +240,8 @@ Qed.
     after a commit; restarts and crashes before an event included; no firing
     hypothesis *)
 Theorem config_erasure_from_init_full cfg1 cfg2 t0 h :
-  exp cfg1 = exp cfg2 -> period cfg1 = period cfg2 -> 0 < exp cfg1 ->
+  exp cfg1 = exp cfg2 -> period cfg1 = period cfg2 -> welcome cfg1 = welcome cfg2 ->
+  0 < exp cfg1 ->
   Forall early_crash h ->
   let '(s1', os1) := run cfg1 (init cfg1 t0) h in
   let '(s2', os2) := run cfg2 (init cfg2 t0) h in
@@ -254,8 +256,8 @@ Theorem config_erasure_from_init_full cfg1 cfg2 t0 h :
   map (fun o => map mask_frame (frames_of (o_boot_log o))) os1 =
   map (fun o => map mask_frame (frames_of (o_boot_log o))) os2.
 Proof.
-  intros Hexp Hper Hpos Hh.
-  pose proof (run_simR cfg1 cfg2 Hexp Hper Hpos h (init cfg1 t0) (init cfg2 t0)
+  intros Hexp Hper Hwel Hpos Hh.
+  pose proof (run_simR cfg1 cfg2 Hexp Hper Hwel Hpos h (init cfg1 t0) (init cfg2 t0)
                        (init_sim cfg1 cfg2 t0 Hexp Hper) (proj1 (init_spec cfg1 Hpos t0)) Hh) as K.
   destruct (run cfg1 (init cfg1 t0) h) as [u1 os1]. destruct (run cfg2 (init cfg2 t0) h) as [u2 os2].
   destruct K as [A B]. apply obs_agree_lists in B.
@@ -266,7 +268,8 @@ Qed.
 (** the conclusion of [run_view_congruence], for histories with restarts and
     crashes before an event *)
 Theorem config_erasure_from_init_crash0 cfg1 cfg2 t0 h :
-  exp cfg1 = exp cfg2 -> period cfg1 = period cfg2 -> 0 < exp cfg1 ->
+  exp cfg1 = exp cfg2 -> period cfg1 = period cfg2 -> welcome cfg1 = welcome cfg2 ->
+  0 < exp cfg1 ->
   Forall early_crash h ->
   let '(s1', os1) := run cfg1 (init cfg1 t0) h in
   let '(s2', os2) := run cfg2 (init cfg2 t0) h in
@@ -277,15 +280,16 @@ Theorem config_erasure_from_init_crash0 cfg1 cfg2 t0 h :
    map (fun o => frames_of (o_log o)) os1 = map (fun o => frames_of (o_log o)) os2) /\
   map o_exc os1 = map o_exc os2.
 Proof.
-  intros Hexp Hper Hpos Hh.
-  pose proof (config_erasure_from_init_full cfg1 cfg2 t0 h Hexp Hper Hpos Hh) as K.
+  intros Hexp Hper Hwel Hpos Hh.
+  pose proof (config_erasure_from_init_full cfg1 cfg2 t0 h Hexp Hper Hwel Hpos Hh) as K.
   destruct (run cfg1 (init cfg1 t0) h) as [u1 os1]. destruct (run cfg2 (init cfg2 t0) h) as [u2 os2].
   destruct K as (A & _ & _ & B & C & D & _). auto.
 Qed.
 
 (** ... and for histories without any crash (plain events and restarts) *)
 Theorem config_erasure_from_init cfg1 cfg2 t0 h :
-  exp cfg1 = exp cfg2 -> period cfg1 = period cfg2 -> 0 < exp cfg1 ->
+  exp cfg1 = exp cfg2 -> period cfg1 = period cfg2 -> welcome cfg1 = welcome cfg2 ->
+  0 < exp cfg1 ->
   Forall no_crash h ->
   let '(s1', os1) := run cfg1 (init cfg1 t0) h in
   let '(s2', os2) := run cfg2 (init cfg2 t0) h in
@@ -296,14 +300,15 @@ Theorem config_erasure_from_init cfg1 cfg2 t0 h :
    map (fun o => frames_of (o_log o)) os1 = map (fun o => frames_of (o_log o)) os2) /\
   map o_exc os1 = map o_exc os2.
 Proof.
-  intros Hexp Hper Hpos Hh. apply config_erasure_from_init_crash0; try assumption.
+  intros Hexp Hper Hwel Hpos Hh. apply config_erasure_from_init_crash0; try assumption.
   eapply Forall_impl; [|exact Hh]. exact no_crash_early.
 Qed.
 
 (** the same from any two related reachable states (e.g. different usage
     databases, different boot instants) *)
 Theorem config_erasure_run cfg1 cfg2 h s1 s2 :
-  exp cfg1 = exp cfg2 -> period cfg1 = period cfg2 -> 0 < exp cfg1 ->
+  exp cfg1 = exp cfg2 -> period cfg1 = period cfg2 -> welcome cfg1 = welcome cfg2 ->
+  0 < exp cfg1 ->
   SInv s1 -> log s1 = [] -> log s2 = [] ->
   view_of s1 = view_of s2 -> timer_start s1 = timer_start s2 -> next_due s1 = next_due s2 ->
   Forall early_crash h ->
@@ -318,9 +323,9 @@ Theorem config_erasure_run cfg1 cfg2 h s1 s2 :
   map o_exc os1 = map o_exc os2 /\
   map o_valid os1 = map o_valid os2.
 Proof.
-  intros Hexp Hper Hpos H1 L1 L2 Hv Ht Hn Hh.
+  intros Hexp Hper Hwel Hpos H1 L1 L2 Hv Ht Hn Hh.
   assert (Hs : sim cfg1 cfg2 True s1 s2) by (apply view_sim; auto).
-  pose proof (run_simR cfg1 cfg2 Hexp Hper Hpos h s1 s2 Hs H1 Hh) as K.
+  pose proof (run_simR cfg1 cfg2 Hexp Hper Hwel Hpos h s1 s2 Hs H1 Hh) as K.
   destruct (run cfg1 s1 h) as [u1 os1]. destruct (run cfg2 s2 h) as [u2 os2].
   destruct K as [A B]. apply obs_agree_lists in B.
   destruct B as (B1 & B2 & B3 & B4 & B5). destruct (sim_tm _ _ _ _ _ A I) as [T1 T2].
@@ -347,18 +352,22 @@ Definition ex_history : list event :=
    EB (ECmd 4 lst o)].
 
 Example config_erasure_nonvacuous :
-  let c1 := gen_cfg true true (Some 56) in
-  let c2 := gen_cfg false false None in
+  let w := mkWelcome (Some "hello") None None in
+  let c1 := gen_cfg_w true true (Some 56) w in
+  let c2 := gen_cfg_w false false None w in
   let r1 := run c1 (init c1 0) ex_history in
   let r2 := run c2 (init c2 0) ex_history in
   let frames r := map (fun o => frames_of (o_log o)) (snd r) in
   let commits r := map (fun o => count_commits (o_log o)) (snd r) in
   (* the hypotheses of the theorem *)
-  exp c1 = exp c2 /\ period c1 = period c2 /\ 0 < exp c1 /\ Forall early_crash ex_history /\
+  exp c1 = exp c2 /\ period c1 = period c2 /\ welcome c1 = welcome c2 /\ 0 < exp c1 /\
+  Forall early_crash ex_history /\
   (* its conclusion, computed *)
   view_of (fst r1) = view_of (fst r2) /\
   map (map mask_frame) (frames r1) = map (map mask_frame) (frames r2) /\
   map o_exc (snd r1) = map o_exc (snd r2) /\
+  (* both greet with the configured notices *)
+  nth 0 (frames r1) [] = [(1%nat, FWelcome w)] /\ nth 0 (frames r2) [] = [(1%nat, FWelcome w)] /\
   (* the `list` answers differ, and nothing else does *)
   nth 5 (frames r1) [] = [(2%nat, FAck None); (2%nat, FNameplates ["7"])] /\
   nth 5 (frames r2) [] = [(2%nat, FAck None); (2%nat, FNameplates [])] /\
